@@ -455,7 +455,11 @@ def finite(a) -> bool:
     return bool(np.isfinite(a).all())
 
 
-def run_impl(space, req) -> dict[str, Any]:
+def _objective(x):
+    return np.array([float(np.sum(x))])
+
+
+def run_impl(space, req, parallel: bool = False) -> dict[str, Any]:
     """Observable behaviour of the real code for one request (fresh library instances)."""
     from gemseo.algos.optimization_problem import OptimizationProblem
     from gemseo.core.mdo_functions.mdo_function import MDOFunction
@@ -492,7 +496,7 @@ def run_impl(space, req) -> dict[str, Any]:
     # execute on a problem
     ds3 = build_space(space)
     pb = OptimizationProblem(ds3)
-    pb.objective = MDOFunction(lambda x: np.array([float(np.sum(x))]), "f")
+    pb.objective = MDOFunction(_objective, "f")
     lib3 = fac.create(algo)
     try:
         lib3.execute(pb, **settings_of(space, req))
@@ -505,6 +509,27 @@ def run_impl(space, req) -> dict[str, Any]:
         obs["exec_msg"] = repr(e)[:160]
     obs["int_after_exec"] = bool(ds3.enable_integer_variables_normalization)
     obs["lseed_after_exec"] = lib3.seed
+    # other entry points and configurations: the high-level API with a settings model, parallel execution
+    obs["x4"] = obs["x4_exc"] = None
+    if x1 is not None:
+        import gemseo
+
+        try:
+            model = lib.ALGORITHM_INFOS[algo].Settings(**settings_of(space, req))
+            obs["x4"] = np.array(gemseo.compute_doe(build_space(space), settings_model=model))
+        except Exception as e:  # noqa: BLE001
+            obs["x4_exc"] = repr(e)[:160]
+    if parallel and x1 is not None and obs.get("exec_exc") is None:
+        ds4 = build_space(space)
+        pb4 = OptimizationProblem(ds4)
+        pb4.objective = MDOFunction(_objective, "f")
+        lib4 = fac.create(algo)
+        try:
+            lib4.execute(pb4, n_processes=2, **settings_of(space, req))
+            obs["par_xs"] = np.array(lib4.samples)
+            obs["par_db"] = [np.array(k) for k in pb4.database.get_x_vect_history()]
+        except Exception as e:  # noqa: BLE001
+            obs["par_exc"] = repr(e)[:160]
     # variable order as seen by the design space
     obs["names"] = list(ds.variable_names)
     obs["dict0"] = None
@@ -599,6 +624,23 @@ def oracle(space, req, obs) -> list[tuple[str, str]]:
         if other is None or other.shape != x1.shape or not np.array_equal(other, x1):
             bad.append(("not-reproducible", f"{algo}: {tag} differs from the first generation (seed={req.get('seed')})"))
             break
+    if explicit:
+        if obs.get("x4_exc") is not None:
+            bad.append(("execute-raises", f"{algo}: gemseo.compute_doe with a settings model raised {obs['x4_exc']}"))
+        elif obs.get("x4") is not None and (obs["x4"].shape != x1.shape or not np.array_equal(obs["x4"], x1)):
+            bad.append(("not-reproducible", f"{algo}: gemseo.compute_doe(settings_model=...) differs from the library's compute_doe"))
+    if "par_exc" in obs:
+        bad.append(("execute-raises", f"{algo}: parallel execute raised {obs['par_exc']}"))
+    elif "par_xs" in obs:
+        P = fmat(obs["par_xs"]) if obs["par_xs"].size else []
+        if explicit and (obs["par_xs"].shape != x1.shape or not np.array_equal(obs["par_xs"], x1)):
+            bad.append(("not-reproducible", f"{algo}: parallel execute generated other samples than compute_doe"))
+        uniq_p: list[list[Fraction]] = []
+        for row in P:
+            if row not in uniq_p:
+                uniq_p.append(row)
+        if [[F(t) for t in k] for k in obs["par_db"]] != uniq_p:
+            bad.append(("database-order", f"{algo}: after a parallel execute the database keys differ from the samples in generation order"))
     # 6. samples = image of the unit samples
     if explicit and obs["u"] is not None and algo != "CustomDOE":
         U = fmat(obs["u"])
@@ -736,6 +778,8 @@ def case_lines(space, req, obs) -> list[tuple[str, str, Any]]:
         lines.append(("exec", doe_line(space, req, "exec", rows), {"x": obs["xs"], "u": None if is_custom else rows, "us": obs["us"], "int": obs["int_after_exec"], "lseed": obs["lseed_after_exec"], "db": obs["db"]}))
         if obs["xs"].shape[0]:
             lines.append(("db", "firstocc | " + rows_str(fmat(obs["xs"])), {"db": obs["db"]}))
+    if "par_xs" in obs and obs["par_xs"].ndim == 2 and obs["par_xs"].shape[0]:
+        lines.append(("db", "firstocc | " + rows_str(fmat(obs["par_xs"])), {"db": obs["par_db"]}))
     return lines
 
 
@@ -781,7 +825,7 @@ def shrink_request(space, req, key: str):
 
     def fails(sp, rq) -> bool:
         try:
-            return any(k == key for k, _ in oracle(sp, rq, run_impl(sp, rq)))
+            return any(k == key for k, _ in oracle(sp, rq, run_impl(sp, rq, parallel=bool(rq.get("parallel")))))
         except Exception:  # noqa: BLE001
             return False
 
@@ -833,7 +877,7 @@ def check_batch(res: Result, batch: list[tuple[dict, dict, str]], in_scope: bool
     prepared = []
     all_lines: list[str] = []
     for space, req, stream in batch:
-        obs = run_impl(space, req)
+        obs = run_impl(space, req, parallel=bool(req.get("parallel")))
         lines = case_lines(space, req, obs)
         prepared.append((space, req, stream, obs, lines, len(all_lines)))
         all_lines.extend(ln for _, ln, _ in lines)
@@ -849,6 +893,8 @@ def check_batch(res: Result, batch: list[tuple[dict, dict, str]], in_scope: bool
         res.count("types=" + ("mixed" if len({v['int'] for v in space['vars']}) > 1 else ("int" if space['vars'][0]['int'] else "float")))
         res.count("int0=" + str(int(space["int0"])))
         res.count("outcome=" + ("ok" if obs["exc"] is None else "rejected:" + str(obs["exc"])))
+        if "par_xs" in obs:
+            res.count("parallel-execute")
         if obs["exc"] is None and obs["x1"] is not None and obs["x1"].shape[0] >= 2:
             res.nontrivial(json.dumps([varspecs(space), space["int0"], req], sort_keys=True, default=str))
         res.sample({"algo": algo, "n": req["n"], "seed": req.get("seed"), "opts": req["opts"], "space": varspecs(space),
@@ -883,7 +929,7 @@ def check_batch(res: Result, batch: list[tuple[dict, dict, str]], in_scope: bool
         found = False
         for s2, r2 in neighbours(space, req):
             try:
-                o2 = run_impl(s2, r2)
+                o2 = run_impl(s2, r2, parallel=bool(r2.get("parallel")))
                 b2 = oracle(s2, r2, o2)
             except Exception:  # noqa: BLE001
                 continue
@@ -904,6 +950,8 @@ def check_batch(res: Result, batch: list[tuple[dict, dict, str]], in_scope: bool
 def gen_request(rng: common.Rng, algo: str, space, n: int, seed) -> dict[str, Any]:
     req = {"algo": algo, "n": n, "seed": seed if ALGOS[algo]["seed"] is not None else None, "opts": {}}
     req["opts"] = gen_opts(rng, algo, space, n)
+    if rng.chance(0.08):
+        req["parallel"] = True  # also execute with n_processes=2
     return req
 
 
@@ -913,12 +961,13 @@ def product_stream(ctx, res: Result) -> None:
     import time
 
     algos = list(ALGOS)
-    reps = 3 if ctx.thorough else 1
+    reps = 10 if ctx.thorough else 2
+    dims = (1, 2, 3, 4, 5) if ctx.thorough else (1, 2, 3, 4)
     for _ in range(reps):
         batch_in, batch_probe = [], []
         for algo in algos:
             meta = ALGOS[algo]
-            for dim in (1, 2, 3, 4):
+            for dim in dims:
                 if dim < meta.get("min_dim", 1):
                     continue
                 for n in N_VALUES:
@@ -1377,7 +1426,7 @@ def replay(path: str) -> int:
     common.quiet_gemseo()
     if "space" in rp and "request" in rp:
         space, req = rp["space"], rp["request"]
-        obs = run_impl(space, req)
+        obs = run_impl(space, req, parallel=bool(req.get("parallel")))
         bad = oracle(space, req, obs)
         print("space:", varspecs(space), "int0 =", space["int0"])
         print("request:", req)
